@@ -8,6 +8,7 @@ def run(R):
     rng = R.rng
     P = scen.Producers()
     cases_ = []
+    known_tags = {}
     try:
         for _ in range(120 if quick else 2000):
             n = rng.choice([2, 2, 3])
@@ -57,6 +58,14 @@ def run(R):
             fill = lambda after=None: b"".join(l + b"\n" for l in [rng.choice(c11.INERT) for _ in range(rng.randint(0, 2))] if not (after in ("context", "gnu-c") and l[:2] in (b"  ", b"+ ", b"! ")))
             combined = fill() + b"".join(t + fill(k) for k, t in secs)
             cases_.append((tree, secs, combined))
+        # a git section without hunks (mode change only) followed by a plain unified section (known finding D29, with or without filler text between them)
+        for sep, tag in ((b"", "stream.hunkless-git-then-plain"), (b"\n-- \n", "stream.hunkless-git-then-plain")):
+            hs_ = gen.make_hunks([(b"a", "L"), (b"b", "L"), (b"c", "L")], [(b"a", "L"), (b"B", "L"), (b"c", "L")], 1)
+            s1 = b"diff --git a/modeonly b/modeonly\nold mode 100644\nnew mode 100755\n"
+            s2 = emit.unified_text(hs_, b"a/other", b"b/other")
+            tree = box.Tree({b"modeonly": ("f", b"x\n", 0o644), b"other": ("f", b"a\nb\nc\n", 0o644)})
+            cases_.append((tree, [("git-mode-only", s1), ("unified", s2)], s1 + sep + s2))
+            known_tags[s1 + sep + s2] = tag
     finally:
         P.close()
     # combined run (via -i and via stdin), and the sequence of separate runs
@@ -87,11 +96,17 @@ def run(R):
             last_dirs = {p for p, v in r.after.items() if v[0] == "d"}
         want = {p: v[1] for p, v in cur.items()}
         got = drv.contents(rc.after, drop=(b"all.diff",))
+        tag = known_tags.get(combined)
         if rc.exit != max(exits):
-            R.oracle_fail(f"combined run exits {rc.exit}, the separate runs exit {exits}", data); continue
+            R.oracle_fail(f"combined run exits {rc.exit}, the separate runs exit {exits}", data, tag=tag); continue
         if got != want:
             diff = sorted(p for p in set(got) | set(want) if got.get(p) != want.get(p))
-            R.oracle_fail(f"combined run leaves a different tree from the separate runs ({diff[:3]})", data); continue
+            R.oracle_fail(f"combined run leaves a different tree from the separate runs ({diff[:3]})", data, tag=tag); continue
+        modes_c = {p: v[2] for p, v in rc.after.items() if v[0] == "f" and p != b"all.diff"}
+        modes_s = {p: v[2] for p, v in cur.items()}
+        if modes_c != modes_s:
+            diff = sorted(p for p in modes_s if modes_c.get(p) != modes_s[p])
+            R.oracle_fail(f"combined run leaves different file modes from the separate runs ({diff[:3]})", data, tag=tag); continue
         if rs.exit != rc.exit or drv.contents(rs.after) != got:
             R.oracle_fail("reading the patch from standard input differs from reading it with -i", data); continue
         if rf is not None and (rf.exit != rc.exit or drv.contents(rf.after, drop=(b"all.diff",)) != got):
